@@ -204,7 +204,9 @@ def _gc(root, keep, max_keep=6):
     ds = [d for d in ds if os.path.isdir(d) and d != keep]
     ds.sort(key=lambda d: os.path.getmtime(d), reverse=True)
     for d in ds[max_keep:]:
-        shutil.rmtree(d, ignore_errors=True)
+        # never a directory a concurrent run (on another tree) may still be reading: only those untouched for an hour
+        if time.time() - os.path.getmtime(d) > 3600:
+            shutil.rmtree(d, ignore_errors=True)
 
 
 def load(out, idx, crate, kind=None):
